@@ -18,8 +18,10 @@ def wrapper_configs(adapter: Any, tier: str) -> List[Dict[str, Any]]:
         m["id"], m["mirror"] = m["id"] + "+mirror", True
         extra = [m]
     if tier == "quick":
-        # one configuration in which episodes end often: tiny time limit, else the small quick config
-        return (clock[:1] or quick[1:2] or quick[:1]) + extra
+        # one configuration in which episodes end often: tiny time limit, else the small quick config; plus, for the
+        # multi-agent environments, a single-agent configuration (state leaves with an axis of size one next to the batch axis)
+        single = [c for c in cfgs if c.get("a") == 1 and not c.get("clock")][:1]
+        return (clock[:1] or quick[1:2] or quick[:1]) + extra + single
     return clock + [c for c in cfgs if not c.get("clock")] + extra
 
 
